@@ -62,6 +62,8 @@ type env struct {
 	lparts  map[*part]*strategy.LookupPartition
 	pparts  map[*part]*strategy.PredicatePartition
 	matches map[*part]map[string]bool // predicate: keys matched by the partition
+	// lookup with the bundled default lookup function: a request without a (string) tag is looked up under ""
+	defaultLookup bool
 }
 
 func (e *env) s() sut {
@@ -74,6 +76,9 @@ func (e *env) s() sut {
 // which model partition does key map to (nil = refused outright)
 func (e *env) route(key string) *part {
 	if e.kind == "lookup" {
+		if e.defaultLookup && (key == untagged || key == nonString) {
+			key = ""
+		}
 		for _, p := range e.m.Parts {
 			if !p.Removed && p.Name == key {
 				return p
@@ -126,10 +131,15 @@ func build(r *rand.Rand) (*env, rt.J) {
 	var pdesc []string
 	if r.IntN(2) == 0 {
 		e.kind = "lookup"
+		emptyKeyPartition := false
 		parts := map[string]*strategy.LookupPartition{}
 		for i := 0; i < np; i++ {
 			num, d := genFrac(r, dyadic, &remaining)
 			p := &part{Name: allKeys[i], Num: num, Den: d}
+			if i == 0 && r.IntN(4) == 0 {
+				p.Name = "" // a partition registered under the empty key: a key like any other
+				emptyKeyPartition = true
+			}
 			e.m.Parts = append(e.m.Parts, p)
 			lp := strategy.NewLookupPartitionWithMetricRegistry(objName(r, p.Name), p.frac(), int32(1+r.IntN(20)), core.EmptyMetricRegistryInstance)
 			parts[p.Name] = lp
@@ -145,6 +155,10 @@ func build(r *rand.Rand) (*env, rt.J) {
 		var lf func(context.Context) string
 		if r.IntN(2) == 0 {
 			lf = keyOf
+		}
+		e.defaultLookup = lf == nil
+		if emptyKeyPartition {
+			rt.Count("lookup_cases_with_a_partition_under_the_empty_key", 1)
 		}
 		s, err := strategy.NewLookupPartitionStrategyWithMetricRegistry(parts, lf, int32(limit), core.EmptyMetricRegistryInstance)
 		if err != nil {
